@@ -49,7 +49,7 @@ def cases(draw):
                                                     "é", "[1]", "$", "{error}", "<stdin>"]))})
     stdin = None
     if n == 0:
-        k = draw(st.sampled_from(["json", "json", "notjson"]))
+        k = draw(st.sampled_from(["json", "json", "notjson", "blank"]))
         stdin = {"state": k, "value": draw(GI.instance_for(schema if isinstance(schema, dict) else {}, 0))}
     output = draw(st.sampled_from(["plain", "plain", "pretty"]))
     fmt = draw(st.sampled_from(FORMATS)) if output == "plain" else None
@@ -147,7 +147,9 @@ def materialise(case, tmp):
     argv.append(spath)
     stdin_text = NOT_JSON if "<stdin>" in ipaths else ""
     if case["stdin"] is not None:
-        stdin_text = json.dumps(case["stdin"]["value"]) if case["stdin"]["state"] == "json" else NOT_JSON
+        st_ = case["stdin"]["state"]
+        stdin_text = json.dumps(case["stdin"]["value"]) if st_ == "json" else ("" if len(str(case["stdin"].get("value"))) % 2 else " \n") \
+            if st_ == "blank" else NOT_JSON
     return argv, stdin_text, spath, ipaths, schema
 
 
@@ -275,7 +277,7 @@ class C19(Prop):
                   and case["validator"] in (None, 3, 4, 6, 7) and isinstance(case["instances"], list)
                   and all(i["state"] in ("json", "missing", "notjson", "notutf8") and "/" not in i.get("name", "")
                           and "\x00" not in i.get("name", "") and len(i.get("name", "")) < 40 for i in case["instances"])
-                  and (case["instances"] or (isinstance(case["stdin"], dict) and case["stdin"]["state"] in ("json", "notjson")))
+                  and (case["instances"] or (isinstance(case["stdin"], dict) and case["stdin"]["state"] in ("json", "notjson", "blank")))
                   and (case["error_format"] is None or (case["output"] == "plain" and case["error_format"] in FORMATS))
                   and isinstance(case["base_uri"], bool))
         except Exception:
